@@ -730,8 +730,8 @@ PROPS = {
         assumptions=["virtual (paused) time; each script step settles fully before the next (lock-step)"],
     ),
     "C11": dict(
-        audit_modules=["RodbusModel.Audit.C11"],
-        required_theorems=["Rodbus.Client.one_outstanding", "Rodbus.Client.fifo_order", "Rodbus.Client.txid_formula", "Rodbus.Client.txid_next_wraps",
+        audit_modules=["RodbusModel.Audit.C11", "RodbusModel.Audit.C11Run"],
+        required_theorems=["Rodbus.Client.rtu_stok_reachable", "Rodbus.Client.stale_frame_never_accepted_rtu_reachable", "Rodbus.Client.one_outstanding", "Rodbus.Client.fifo_order", "Rodbus.Client.txid_formula", "Rodbus.Client.txid_next_wraps",
                            "Rodbus.Client.consecutive_differ", "Rodbus.Client.mismatch_discarded", "Rodbus.Client.idle_dropped",
                            "Rodbus.Client.stale_frame_never_accepted", "Rodbus.Client.stale_frame_never_accepted_mbap"],
         suites=[dict(gen="cl_task", n=(1200, 120000), corpus=["cl"]), dict(gen="cl_txwrap", n=(0, 1))],
